@@ -124,18 +124,21 @@ def check_start_stop(ck):
     start = ck.func(IO, PC + ".start")
     cfg = stop.cfg
     fa = {nd.id for nd in cfg.stmt_nodes(node_assigns(RUNNING, is_false))}
-    rm = node_counts(stop, lambda x: isinstance(x, ast.Call) and q.call_attr(x) == "remove_timeout" and len(x.args) == 1 and q.dotted(x.args[0]) == TIMEOUT)
+    # local names bound (once) to the handle
+    handles = {TIMEOUT} | {st.targets[0].id for st in own_walk(stop.node) if isinstance(st, ast.Assign) and len(st.targets) == 1 and isinstance(st.targets[0], ast.Name)
+                           and q.dotted(st.value) == TIMEOUT and len(q.stores_to(stop.node, st.targets[0].id)) == 1}
+    rm = node_counts(stop, lambda x: isinstance(x, ast.Call) and q.call_attr(x) == "remove_timeout" and len(x.args) == 1 and q.dotted(x.args[0]) in handles)
     cl = {nd.id for nd in cfg.stmt_nodes(node_assigns(TIMEOUT, is_none))}
-    nonef = "%s is None" % TIMEOUT
+    nonefs = {"%s is None" % h for h in handles}
 
     def edge(nd, kind, v):
         a, r, c, had = v
         if nd.kind == "test" and kind in ("true", "false"):
             from ..cfg import canon_fact
             t, pol = canon_fact(nd.ast, kind == "true")
-            if t == nonef:
+            if t in nonefs:
                 had = not pol
-            elif t == TIMEOUT:
+            elif t in handles:
                 had = pol
         return (a, r, c, had)
 
